@@ -124,4 +124,32 @@ theorem f7_unchecked_head_attempt_violates :
 example : replay [.ok 1, .invalid 7, .fatal 9, .ok 2] = ([.executed 1, .skipped 7], some (2, 9)) := by
   decide
 
+/-- **fee_fault_reported_at_boundary** (finding F8, repaired).  When the fee recipient's account
+    cannot be read, every path that loads it at the boundary — the parallel path before its workers
+    start, and the sequential replay since the repair — reports that error at the boundary with
+    nothing committed, whatever the transactions are; without a fault the replay is unchanged. -/
+theorem fee_fault_reported_at_boundary (e : Nat) (txs : List TxRes) :
+    replayPreload (some e) txs = ([], some (0, e)) ∧ replayPreload none txs = replay txs :=
+  ⟨rfl, rfl⟩
+
+/-- Without a fault on the fee recipient the unrepaired sequential path computed the same replay. -/
+theorem no_preload_same_without_fault (needs : Nat → Bool) (i : Nat) (txs : List TxRes) :
+    replayNoPreload none needs i txs = replay txs := by
+  induction txs generalizing i with
+  | nil => rfl
+  | cons x rest ih =>
+    cases x with
+    | ok r => simp [replayNoPreload, replay, ih]
+    | invalid reason => simp [replayNoPreload, replay, ih]
+    | fatal err => rfl
+
+/-- **f8_no_preload_depends_on_path.** The unrepaired sequential path reported the same fault
+    at the first transaction that pays a fee, after committing what precedes it: for
+    `[invalid, ok, ok]` it returns one outcome and index 1 where the parallel path (and the
+    reference of C04, which loads the fee recipient up front) returns none and index 0. -/
+theorem f8_no_preload_depends_on_path :
+    replayNoPreload (some 9) (fun _ => true) 0 [.invalid 3, .ok 1, .ok 2] = ([.skipped 3], some (1, 9)) ∧
+    replayPreload (some 9) [.invalid 3, .ok 1, .ok 2] = ([], some (0, 9)) := by
+  decide
+
 end Grevm.Commit
